@@ -46,7 +46,7 @@ def cases(draw):
     c = {'pkg': pkg, 'filters': filters, 'law': law, 'subdir': draw(st.sampled_from([0, 0, 2])),
          'av_range': draw(gen.av_ranges())}
     if pkg['apdep']:
-        c['setup'] = draw(gen.distance_setup(pkg['apertures'], nf))
+        c['setup'] = draw(gen.distance_setup(pkg['apertures'], nf, step=pkg['logd_step']))
         c['setup']['step'] = pkg['logd_step']
         c['theta'] = c['setup']['theta']
     else:
@@ -72,7 +72,7 @@ def cases(draw):
 
 def emit_v1_subdirs(pkg, d, n):
     """per-file package with seds/<first n letters>/<name>_sed.fits and length_subdir = n"""
-    convpkg.emit(pkg, d, 'v1')
+    convpkg.emit(dict(pkg, sed_layout='gz' if pkg.get('sed_layout', 'flat').endswith('gz') else 'flat'), d, 'v1')
     pkgio.write_conf(d, pkg['apdep'], pkg['logd_step'], version=None, length_subdir=n)
     sdir = os.path.join(d, 'seds')
     for fn in sorted(os.listdir(sdir)):
@@ -101,6 +101,11 @@ def run_case(case, ctx):
         labels.add('permuted')
     if case['subdir']:
         labels.add('sed_subdirs')
+    labels.add('sed_layout_' + pkg.get('sed_layout', 'flat'))
+    if pkg.get('par_gz'):
+        labels.add('parameters.fits.gz')
+    if pkg['apdep']:
+        labels.add('distance_range_' + case['setup'].get('shape', '?'))
     law = gen.law_object(case['law'])
     k = of.extinction_pattern(case['law']['wav'], case['law']['chi'], [f['central'] for f in filters])
     with ctx.tempdir() as d1, ctx.tempdir() as d2:
@@ -173,6 +178,7 @@ def run_case(case, ctx):
             grids = of.distance_grid(dk[0], dk[1], pkg['logd_step'])
         else:
             dr = [1., 2.] * u.kpc
+        reported_sc = {}
         for d, memmap, what in ((d1, False, 'per-file'), (d2, False, 'cube'), (d2, True, 'cube+memmap')):
             slack = memmap or (f32 and d == d2)
             with must_succeed('Fitter() on the %s package' % what), quiet():
@@ -188,6 +194,7 @@ def run_case(case, ctx):
                 for i, name in enumerate(got):
                     m = names.index(name)
                     av, sc, chi2 = float(info.av[i]), float(info.sc[i]), float(info.chi2[i])
+                    reported_sc.setdefault(what, []).append(sc)
                     w = '%s package, source %s, model %s' % (what, src['name'], name)
                     if not pkg['apdep']:
                         ref = of.Ref2D(bands, [math.log10(refs[f['name']][m][0]) for f in filters], k,
@@ -209,11 +216,76 @@ def run_case(case, ctx):
                         fail(bad[1], 'c07:fit_' + bad[0].split(':')[1])
             del fitter
             labels.add('fitted_' + what)
+        # "fits made from either, memory-mapped or not, agree": all variants must have used ONE distance grid. Every reported
+        # scale is log10 of a grid distance, so the acceptable grids each variant is consistent with must intersect
+        # (robust against near-ties between neighbouring distances and against single-precision storage).
+        if pkg['apdep'] and len(grids) > 1:
+            def consistent(vals, g):
+                logs = [math.log10(x) for x in g]
+                return all(min(abs(v - l) for l in logs) < 1e-9 for v in vals if v == v)
+            fits = dict((what, [gi for gi, g in enumerate(grids) if consistent(vals, g)]) for what, vals in reported_sc.items())
+            if all(fits.values()) and not set.intersection(*[set(v) for v in fits.values()]):
+                fail('the variants of one package were fitted on different distance grids: %s (grid sizes %r)' % (
+                    ', '.join('%s -> %r' % (w, [len(grids[gi]) for gi in v]) for w, v in sorted(fits.items())),
+                    [len(g) for g in grids]), 'c07:formats_disagree_fit')
+            labels.add('distance_grid_ambiguous_by_rounding')
     return labels, len(names) >= 2 and permuted
 
 
-ENTRIES = {'formats': run_case}
+# ------------------------------------------------------------------------------------------ same distance grid in both formats
+
+@st.composite
+def grid_cases(draw):
+    step = draw(st.sampled_from([0.02, 0.025, 0.05, 0.1, 0.25]))
+    c = draw(gen.fit_case_3d(max_models=3, max_filters=3, max_sources=2, formats=('v1',),
+                             setup_kwargs={'step': step, 'shapes': ('integer_ratio', 'typed_decade', 'typed_decade')}))
+    c['ap_count_by_filter'] = None
+    return c
+
+
+def run_grid(case, ctx):
+    """The same convolved fluxes as a per-file package and as a cube package (named filters), fitted over a distance range
+    that is a whole number of steps up to rounding: both must use ONE distance grid ('fits made from either agree')."""
+    import os
+    labels = {'range_' + case['setup']['shape'], 'unit_' + case['setup']['unit']}
+    dr = gen.distance_range_quantity(case['setup'])
+    out = {}
+    with ctx.tempdir() as d:
+        for fmt in ('v1', 'v2name'):
+            sub = os.path.join(d, fmt)
+            os.mkdir(sub)
+            c = dict(case, format=fmt, memmap=False, cube_unit='mJy', conv_unit='mJy')
+            gen.build_package_3d(sub, c)
+            with must_succeed('Fitter() on the %s package' % fmt), quiet():
+                fitter = gen.make_fitter(sub, c, case['av_ranges'][0], distance_range=dr)
+            res = []
+            for src in case['sources']:
+                with must_succeed('Fitter.fit'), quiet():
+                    info = fitter.fit(gen.source_object(src))
+                order = np.argsort([str(x) for x in info.model_name], kind='stable')
+                res.append([(str(info.model_name[i]).strip(), float(info.av[i]), float(info.sc[i]), float(info.chi2[i])) for i in order])
+            grid_attr = getattr(getattr(fitter, 'models', None), 'distances', None)
+            out[fmt] = (res, None if grid_attr is None else [float(x) for x in np.asarray(getattr(grid_attr, 'value', grid_attr))])
+            del fitter
+    (r1, g1), (r2, g2) = out['v1'], out['v2name']
+    if g1 is not None and g2 is not None and len(g1) != len(g2):
+        fail('distance range %r %s, step %r: the per-file package is fitted on %d distances, the cube package on %d' % (
+            list(dr.value), dr.unit, case['setup']['step'], len(g1), len(g2)), 'c07:formats_disagree_fit')
+    for a, b in zip(r1, r2):
+        for (n1, av1, sc1, ch1), (n2, av2, sc2, ch2) in zip(a, b):
+            if n1 != n2:
+                fail('the two formats list different models', 'c07:fit_model_set')
+            if sc1 != sc1 or sc2 != sc2:
+                continue
+            if abs(sc1 - sc2) > 1e-9 and abs(ch1 - ch2) > 1e-6 * max(1., abs(ch1)):
+                fail('distance range %r %s, step %r, model %s: per-file package gives scale %r (chi2 %r), cube package scale %r '
+                     '(chi2 %r)' % (list(dr.value), dr.unit, case['setup']['step'], n1, sc1, ch1, sc2, ch2), 'c07:formats_disagree_fit')
+    return labels, True
+
+
+ENTRIES = {'formats': run_case, 'grid': run_grid}
 
 
 def plan(ctx):
     ctx.run_given("formats", cases(), ctx.scale(15, 300), shrink=not ctx.quick)
+    ctx.run_given("grid", grid_cases(), ctx.scale(25, 400), shrink=not ctx.quick)
